@@ -1,5 +1,6 @@
 //! Independent oracles, written from the RFC texts; no code or tables shared with /repo.
 
+pub mod fields;
 pub mod frames;
 pub mod huffman;
 pub mod huffman_table;
@@ -21,5 +22,6 @@ pub fn selftest() -> i32 {
     check("huffman", huffman::selftest());
     check("qpack", qpack::selftest());
     check("frames", frames::selftest());
+    check("fields", fields::selftest());
     bad
 }
